@@ -23,7 +23,7 @@ fn check_world(case: &Case) -> Outcome {
     let mut handler_event_non_first = false;
     let mut denial_non_first = false;
     // when a shared oracle already failed the interpreter stopped early: completeness checks are skipped on the partial history
-    let partial = !r.fails.is_empty();
+    let partial = !r.complete;
     for node in 0..nn {
         // 1. every FromSwarm reaches every field, in the same order
         let per_field: Vec<Vec<&FS>> = (0..nf).map(|f| r.log.iter().filter(|x| x.node == node && x.field == f).filter_map(|x| if let Entry::Swarm(fs) = &x.entry { Some(fs) } else { None }).collect()).collect();
@@ -232,14 +232,28 @@ pub fn run(ctx: &mut Ctx) {
     ctx.check::<Case>(
         "world",
         "world programs over 1..3 swarms whose behaviour is #[derive(NetworkBehaviour)] over 2..3 probes: scripted denials, handler-emitted events tagged with the emitting field, closes; oracle: identical FromSwarm sequence at every field, handler events arrive at the producing field only, fields consulted in order until one denies, denied iff some field denies; non-trivial = a handler event from a non-first field and a denial by a non-first field; distinct by case hash",
-        ctx.n(2000, 50_000),
-        &|| life::case_strategy(3, 2..=3, 6, 50, Weights { notify: 8, ..Weights::default() }),
+        ctx.n(30_000, 900_000),
+        &|| {
+            life::case_strategy(3, 2..=3, 6, 50, Weights { notify: 12, connect: 8, ..Weights::default() })
+                .prop_map(|mut c| {
+                    // most notifications ask the handler to emit an event back to its behaviour
+                    for op in c.ops.iter_mut() {
+                        if let life::Op::Notify { cmd, pick, .. } = op {
+                            if *pick % 4 != 0 {
+                                *cmd = simswarm::probe::HCmd::Emit(0);
+                            }
+                        }
+                    }
+                    c
+                })
+                .boxed()
+        },
         &check_world,
     );
     ctx.check::<DialCase>(
         "dial-addresses",
         "one Swarm::dial on a derived behaviour of 2..3 probes returning generated address lists, with/without extend_addresses_through_behaviour and an optional denying field; transport dials == union (after the Swarm's dedup) of explicit and every field's addresses; non-trivial = a non-first field contributes an address nobody else gave (or denies); distinct by case hash",
-        ctx.n(6000, 200_000),
+        ctx.n(60_000, 2_000_000),
         &|| {
             (2u8..=3, proptest::collection::vec(0u8..8, 0..4), proptest::collection::vec(proptest::collection::vec(0u8..8, 0..4), 3), proptest::bool::weighted(0.8), proptest::option::weighted(0.15, 0u8..3))
                 .prop_map(|(fields, explicit, returned, extend, deny_field)| DialCase { fields, explicit, returned, extend, deny_field })
